@@ -187,7 +187,7 @@ def run(ctx, prog, only=None):
     # the configured method id reaches resolution as a typed DIDUrl: the query built from it carries the DID, not only the fragment
     if only is None:
         import c04
-        c04.run(ctx, prog, only=r'^DIDUrlQuery::|^resolve_method/|^resolve_method_ref/')
+        c04.run(ctx, prog, only=r'^DIDUrlQuery::|^resolve_method/|^resolve_method_inner/|^resolve_method_ref/')
     import c07
     c07.presentation_consistency(A, prog, {'scenario': 'presentation_validation', 'cex': {'only': '[consistency]'}})
 
